@@ -413,20 +413,52 @@ func (E *Engine) recAxiomsFor(ts []*Term, goal *Term) []*Term {
 	if goal != nil {
 		walk(goal)
 	}
-	keys := make([]string, 0, len(present))
-	for k := range present {
-		keys = append(keys, k)
-	}
-	sort.Strings(keys)
 	var out []*Term
-	for _, k := range keys {
-		t := present[k]
-		tpl := E.recTemplates[t.Name]
-		m := map[string]*Term{}
-		for i, p := range tpl.params {
-			m[p.Name] = t.Args[i]
+	done := map[string]bool{}
+	for level := 0; level < 18 && len(present) > 0; level++ {
+		keys := make([]string, 0, len(present))
+		for k := range present {
+			keys = append(keys, k)
 		}
-		out = append(out, Eq(t, Subst(tpl.body, m)))
+		sort.Strings(keys)
+		var produced []*Term
+		for _, k := range keys {
+			if done[k] {
+				continue
+			}
+			done[k] = true
+			t := present[k]
+			if level >= 1 {
+				// deeper levels only for applications with a constant argument
+				// (bounded unrolling such as the 8 bit-steps of a CRC)
+				hasConst := false
+				for _, a := range t.Args {
+					if a.IsConst() {
+						hasConst = true
+					}
+				}
+				if !hasConst {
+					continue
+				}
+			}
+			tpl := E.recTemplates[t.Name]
+			m := map[string]*Term{}
+			for i, p := range tpl.params {
+				m[p.Name] = t.Args[i]
+			}
+			ax := Eq(t, Subst(tpl.body, m))
+			out = append(out, ax)
+			produced = append(produced, ax)
+		}
+		present = map[string]*Term{}
+		for _, ax := range produced {
+			walk(ax.Args[len(ax.Args)-1])
+		}
+		for k := range present {
+			if done[k] {
+				delete(present, k)
+			}
+		}
 	}
 	return out
 }
